@@ -21,18 +21,24 @@ from . import c07 as C07
 from . import c18 as C18
 
 PROP = "C08"
-RULE = ("(7%: structured 'observational' inputs -- P(y | x) over factual variables, the static part of the proved fragment; 8%: structured 'bichain' inputs -- 3-4 nodes on a chain of bidirected edges, one outcome, two conditions) random ADMGs with 2-5 nodes x pairs (outcome conjunction, non-empty condition conjunction) with disjoint keys drawn "
+RULE = ("(7%: structured 'observational' inputs -- P(y | x) over factual variables, the static part of the two proved fragments; 8%: structured 'bichain' inputs -- 3-4 nodes on a chain of bidirected edges, one outcome, two conditions) random ADMGs with 2-5 nodes x pairs (outcome conjunction, non-empty condition conjunction) with disjoint keys drawn "
         "from <=2 counterfactual worlds plus the factual world (shared/distinct subscripts, x / x' values, "
         "self-interventions); the examples of test_idc_star / Shpitser-Pearl / Tikka and all past witnesses first; a "
         "stream of impossible conditions (violating effectiveness). Every case is run under every order of the worlds and "
         "both orders of the other set-valued iterations. A case is non-trivial when the graph has an edge, some variable "
         "is counterfactual and IDC* got past line 1 (answered, returned Zero, or refused as unidentifiable).")
 ASSUMPTIONS = [
-    "soundness (value = P(outcomes, conditions) / P(conditions)) is PROVED on the fragment InFragmentC (idcstar_sound_fragment: "
-    "factual unstarred outcomes and conditions without a common name, rule 2 applies to no condition, the joint ID* estimand "
-    "marginalises nothing; decided on the real run, tag in_fragment_c; a failure inside it is a VIOLATION keyed "
-    "[IN-FRAGMENT, kind]); outside the fragment soundness and zero-soundness have NO theorem; IDC* inherits the wrong "
-    "answers of ID* (F10) and adds its own (the line-4 exchange ignores the remaining conditions; what remains of F11: "
+    "soundness (value = P(outcomes, conditions) / P(conditions)) is PROVED on two fragments of observational queries (factual "
+    "unstarred outcomes and conditions without a common name): InFragmentC (idcstar_sound_fragment: rule 2 applies to no condition, "
+    "the joint ID* estimand marginalises nothing) and InFragmentX (idcstar_sound_fragment_exchange: ONE condition, rule 2 applies to "
+    "it, every outcome descends from it or none does; rule 2 of the do-calculus is proved for functional SCMs on the noise space, no "
+    "positivity of kernels is assumed, only P(condition) > 0); both are decided on the real run (tags in_fragment_c / in_fragment_x) "
+    "AND by the model (driver op idc_star_checked), the two verdicts are part of the correspondence; a failure inside a fragment is a "
+    "VIOLATION keyed [IN-FRAGMENT(-X), kind], never a known finding. The exchange fragment's membership test also runs the model's "
+    "counterfactual-graph construction on the exchanged outcomes and asks that every Y_x is kept (never false on a generated input, not "
+    "proved from the other conditions)",
+    "outside the two fragments soundness and zero-soundness have NO theorem; IDC* inherits the wrong "
+    "answers of ID* (F10) and adds its own (an exchange made while other conditions remain ignores them; what remains of F11: "
     "Expression.conditional also normalises over the variables bound by inner sums of the ID* estimand -- the subscript part of "
     "F11 is repaired by `fix:` a54a0f5): decided by correspondence + exact "
     "evaluation on 8 sampled functional SCMs per case; the known wrong answers are listed in known_findings.jsonl",
@@ -45,19 +51,24 @@ ASSUMPTIONS = [
     "in get_new_outcomes_and_conditions decide which condition is exchanged first); the model takes that order as the "
     "parameter kordf, the harness drives the real code through both orders and judges every distinct answer",
     "termination of the model is by fuel (2(|outcomes|+|conditions|) + |V| + 4): the inner ID* calls terminate by theorem "
-    "(C07 idstar_never_out_of_fuel); IDC*'s own line-4 recursion terminates by theorem with the explicit bound |conditions| + 1 "
-    "on every input in which no variable NAME occurs both among the outcomes and among the conditions "
-    "(idcstar_own_recursion_terminates / idcstar_bound_suffices; idcStarO = the model with its own fuel exhaustion observable, "
-    "idcstar_model_is_idcStarO). OPEN when an outcome and a condition are copies of one variable: |conditions| can grow there "
-    "(the re-association puts merged keys into both dicts, an exchange can split a shared key), no measure is proved and no "
-    "looping input is known (95 000 random inputs incl. shared names / shared keys / 5 worlds: depth <= |conditions| + 1); it is "
-    "checked on every generated input (an exhausted fuel would be a correspondence disagreement, a RecursionError of the real "
-    "code a crash = VIOLATION); the division `e / d` is modelled for the operands IDC* can produce (an ID* estimand is never a Fraction)",
+    "(C07 idstar_never_out_of_fuel); IDC*'s own line-4 recursion terminates by theorem (i) with the explicit bound |conditions| + 1 "
+    "when no variable NAME occurs both among the outcomes and among the conditions (idcstar_own_recursion_terminates / "
+    "idcstar_bound_suffices) and (ii) WITHOUT an explicit bound on every input without self-intervened keys, shared names allowed "
+    "(idcstar_terminates_shared_names: lexicographic measure (#outcome names, #conditions named like no outcome); rule 2 never "
+    "accepts a condition that is a copy of an outcome variable); tag termination_theorem_applies, also computed by the model "
+    "(idcInvB / disjointNamesB) and compared. OPEN: an explicit bound in case (ii) -- the model's fuel bound is not proved sufficient "
+    "there (the re-association can add conditions, even at later levels) -- and inputs with a self-intervened key AND a shared name "
+    "(about 9% of the generated inputs): no measure is known; no input deeper than |conditions| + 1 is known (exhaustive over two "
+    "variables: 1 336 608 inputs; > 10 million random inputs, harness/props/c08_termsearch.py); it is checked on every generated "
+    "input (an exhausted fuel would be a correspondence disagreement, a RecursionError of the real code a crash = VIOLATION); the "
+    "division `e / d` is modelled for the operands IDC* can produce (an ID* estimand is never a Fraction)",
     "pairs in which the same counterfactual variable V_S occurs both as an outcome and as a condition are left out of the "
     "checked domain (idc_star merges the two dicts, the condition's value silently wins)",
     "a wrong value / wrong Zero is classified by the FIRST step of IDC*'s own chain of claims that an independent exact "
     "evaluation shows to be broken on that input: 'reassociation' (get_new_outcomes_and_conditions changes "
-    "P(outcomes | conditions)), 'exchange' (the line-4 exchange changes it), 'inherited' (the final id_star call is wrong by "
+    "P(outcomes | conditions); only for events with a counterfactual world), 'exchange' (the line-4 exchange changes it; only listed "
+    "when the exchanging level has at least two conditions -- with a single condition it is the unlisted kind "
+    "'exchange-with-a-single-condition:...', i.e. a VIOLATION), 'inherited' (the final id_star call is wrong by "
     "itself: keyed by the C07 finding it shrinks to), 'F11' (numerator right, every name Expression.conditional wrongly "
     "normalises over is BOUND by a sum inside the numerator; confirmed by evaluating the repaired fraction; a wrong "
     "normaliser that contains a subscript-only name is the repaired part of F11 and is reported as the unlisted kind "
@@ -828,7 +839,7 @@ MANIFEST = {
              "(ValueError) every condition for which ID* answers Zero, in particular every condition that violates "
              "effectiveness, before doing anything else; the model is defined for every fuel, an answer reached with some fuel "
              "is not changed by more fuel; every leaf of a returned estimand is a single-world interventional term (C06 part); "
-             "Zero from line 3 (inconsistent joint event) is sound in every compatible functional SCM (by C18's cg_prob); the final division is fully modelled; the line-4 recursion terminates within |conditions| + 1 levels when no name is both an outcome and a condition (idcstar_own_recursion_terminates); the returned value EQUALS P(outcomes, conditions)/P(conditions) in every compatible functional SCM on the observational no-exchange fragment (idcstar_sound_fragment, via idstar_sound_fragment, the repaired conditional and marginalisation). Outside that fragment soundness of the returned value and of Zero from inside ID* has NO theorem (it inherits F10 from "
+             "Zero from line 3 (inconsistent joint event) is sound in every compatible functional SCM (by C18's cg_prob); the final division is fully modelled; the line-4 recursion terminates within |conditions| + 1 levels when no name is both an outcome and a condition (idcstar_own_recursion_terminates) and, without an explicit bound, on every input without self-intervened keys even when outcomes and conditions are copies of the same variables (idcstar_terminates_shared_names); the returned value EQUALS P(outcomes, conditions)/P(conditions) in every compatible functional SCM on the observational no-exchange fragment (idcstar_sound_fragment, via idstar_sound_fragment, the repaired conditional and marginalisation) and on the exchange fragment (idcstar_sound_fragment_exchange: one factual condition to which rule 2 applies, all or no outcomes descending from it; rule 2 of the do-calculus proved for functional SCMs on the noise space, no positivity assumption). Outside these fragments soundness of the returned value and of Zero from inside ID* has NO theorem (it inherits F10 from "
              "ID* and adds the bound-range part of F11 and an exchange step that ignores the other conditions); the check decides it by correspondence with the real "
              "code plus exact evaluation of P(outcomes, conditions)/P(conditions) on sampled functional SCMs; every wrong answer is "
              "attributed to the first step of IDC*'s chain of claims that exact evaluation shows to be broken (reassociation, "
@@ -837,5 +848,5 @@ MANIFEST = {
     "note": ("Trusted: Lean kernel + standard axioms; hand-written models (ID*, counterfactual graph, d-separation of the sep "
              "family, Expression.conditional) tied to the code by differential testing under all set-iteration orders; the "
              "reading convention of estimands; sampled models (8 per case, P(conditions) > 0)."),
-    "technique": "Lean 4 theorems (rejection of impossible conditions, vocabulary invariant, fuel monotonicity) + differential correspondence + exact-rational functional-SCM oracle + shrunk known findings",
+    "technique": "Lean 4 theorems (rejection of impossible conditions, soundness on two named fragments incl. rule 2 for functional SCMs, termination of the line-4 recursion, vocabulary invariant) + differential correspondence (answers and fragment / termination-hypothesis verdicts) + exact-rational functional-SCM oracle + shrunk known findings",
 }
